@@ -119,7 +119,7 @@ theorem b2a_of_a2b {cs os : Bytes} (h : a2b 0 cs = some os) : b2a os = cs := by
       · subst h0; simp [legitLen, vals, Radix.ofBE, Radix.ofLE]
       · subst h0
         simp only [List.concat_eq_append] at *
-        simp only [couldBe, List.getLast?_append, List.getLast?_singleton, Option.or_some,
+        simp only [couldBe, List.getLast?_append, List.getLast?_singleton,
           Option.some_or, Bool.and_eq_true, Nat.sub_zero] at hc
         obtain ⟨⟨h1, h2⟩, h3⟩ := hc
         refine ⟨h1, h3, ?_⟩
